@@ -128,13 +128,32 @@ def gen_hybrid_schema(rng, sw):
                 rename[f[0]] = ("_" + f[0]) if rng.random() < 0.3 else (f[0] + "_py")
         schema.append({"k": "struct", "name": f"H{j}Data", "hname": f"H{j}", "hybrid": True, "fields": fields, "rename": rename, "decl": "hybrid"})
         hyb.append(len(schema) - 1)
+    if sw.get("deep_dyn"):
+        # three levels by value, the innermost with several dynamic arrays of one item type: equal
+        # total sizes with different splits exist at every level above it
+        it = rng.choice(idx_sc)
+        dname = f"ArrN{typegen.type_name(schema, it)}"
+        dyn = [i for i, ty in enumerate(schema) if ty["k"] == "array" and ty["name"] == dname]
+        if not dyn:
+            schema.append({"k": "array", "name": dname, "item": it, "shape": [None], "order": [0], "decl": "sugar", "order_decl": None})
+            dyn = [len(schema) - 1]
+        lf = [["v", dyn[0]], ["w", dyn[0]]] + ([["u", dyn[0]]] if rng.random() < 0.5 else [])
+        if rng.random() < 0.5:
+            lf.insert(rng.randrange(len(lf) + 1), ["s", rng.choice(idx_sc)])
+        for nm, fields in (("HL", lf), ("HM", None), ("HT", None)):
+            if fields is None:
+                fields = [["p", hyb[-1]], ["q", rng.choice(idx_sc)]]
+                if rng.random() < 0.5:
+                    fields.reverse()
+            schema.append({"k": "struct", "name": f"{nm}Data", "hname": nm, "hybrid": True, "fields": fields, "rename": {}, "decl": "hybrid"})
+            hyb.append(len(schema) - 1)
     return schema
 
 
 def gen_world(rng, profile, tier):
     spec = objsim.gen_world(rng, profile, tier)
     sw = spec["switches"]
-    sw.update({"chain": rng.random() < 0.35, "nested": rng.random() < 0.8, "rename": rng.random() < 0.7, "refs": rng.random() < 0.6, "defaults": rng.random() < 0.7, "strings": rng.random() < 0.6, "hybrid": True, "xobj_input": rng.random() < 0.7, "omit": rng.random() < 0.6, "nested_refs": rng.random() < 0.5})
+    sw.update({"chain": rng.random() < 0.35, "nested": rng.random() < 0.8, "rename": rng.random() < 0.7, "refs": rng.random() < 0.6, "defaults": rng.random() < 0.7, "strings": rng.random() < 0.6, "hybrid": True, "xobj_input": rng.random() < 0.7, "omit": rng.random() < 0.6, "nested_refs": rng.random() < 0.5, "deep_dyn": rng.random() < 0.3})
     spec["schema"] = gen_hybrid_schema(rng, sw)
     return spec
 
@@ -458,6 +477,15 @@ class HGenSource(GenSource):
                 if follow and not getattr(self, "pending", None):
                     self.pending = follow[:2]
                 return op
+            if rng.random() < 0.12 and w.schema[t].get("hybrid") and w.schema[t]["fields"]:
+                # an object of the part's class whose FIRST field is a dynamic array of another length:
+                # the assignment cannot be honoured (and is refused before anything is written)
+                f0 = w.schema[t]["fields"][0]
+                ft0 = w.schema[f0[1]]
+                if ft0["k"] == "array" and len(ft0["shape"]) == 1 and ft0["shape"][0] is None and w.schema[ft0["item"]]["k"] == "sc":
+                    misfits = [x for x in self.hlive(w) if x.t == t and x.k != o.k and len(x.node.f[f0[0]].items) != len(n.f[f0[0]].items)]
+                    if misfits:
+                        return {"op": "h_set", "obj": o.k, "path": p, "value": {"obj": rng.choice(misfits).k}, "refuse": True}
             if rng.random() < 0.3 and w.schema[t].get("hybrid") and not getattr(self, "pending", None):
                 sc = self._resplit_scenario(w, o, p, t, n)
                 if sc:
@@ -504,34 +532,57 @@ class HGenSource(GenSource):
         another split of its dynamic arrays, assigned to the nested field dressed or as raw xobject:
         the library byte-copies it, every cached layout fact about the part has to follow."""
         rng = self.rng
-        ty = w.schema[t]
+        sc = w.schema
+        # dynamic 1-D arrays of numbers of the part itself and of the parts nested in it by value
         dyn = []
-        for f in ty["fields"]:
-            ft = w.schema[f[1]]
-            if ft["k"] == "array" and len(ft["shape"]) == 1 and ft["shape"][0] is None and w.schema[ft["item"]]["k"] == "sc":
-                dyn.append((f[0], f[1], np.dtype(typegen.SC_DTYPE[w.schema[ft["item"]]["t"]]).itemsize))
-        pairs = [(a, b) for a in dyn for b in dyn if a[0] < b[0] and a[2] == b[2] and len(n.f[a[0]].items) != len(n.f[b[0]].items)]
+
+        def walk(tt, node, path, depth):
+            for f in sc[tt]["fields"]:
+                ft = sc[f[1]]
+                if ft["k"] == "array" and len(ft["shape"]) == 1 and ft["shape"][0] is None and sc[ft["item"]]["k"] == "sc":
+                    dyn.append((tuple(path + [f[0]]), f[1], np.dtype(typegen.SC_DTYPE[sc[ft["item"]]["t"]]).itemsize, len(node.f[f[0]].items)))
+                elif ft["k"] == "struct" and depth < 2 and not typegen.has_refs(sc, f[1]):
+                    walk(f[1], node.f[f[0]], path + [f[0]], depth + 1)
+
+        walk(t, n, [], 0)
+        pairs = [(a, b) for a in dyn for b in dyn if a[0] < b[0] and a[2] == b[2] and a[3] != b[3]]
         if not pairs or o.bufid is None:
             return None
-        a, b = rng.choice(pairs)
-        la, lb = len(n.f[a[0]].items), len(n.f[b[0]].items)
+        deep = [pr for pr in pairs if len(pr[0][0]) > 1 and len(pr[1][0]) > 1]
+        a, b = rng.choice(deep) if deep and rng.random() < 0.6 else rng.choice(pairs)
+        la, lb = a[3], b[3]
         if rng.random() < 0.4 and abs(la - lb) >= 2:
             # move part of the difference only (for 3 fields: lengths that make old headers meet new offsets)
             k = rng.randrange(1, abs(la - lb))
             na, nb = (la - k, lb + k) if la > lb else (la + k, lb - k)
         else:
             na, nb = lb, la
-        d = {}
-        for f in ty["fields"]:
-            if f[0] in (a[0], b[0]):
-                ln = na if f[0] == a[0] else nb
-                it = w.schema[w.schema[f[1]]["item"]]["t"]
-                d[f[0]] = {"l": [M.gen_scalar(rng, it) for _ in range(ln)], "shape": [ln]}
-            else:
-                v = self._same_shape_value(w, f[1], n.f[f[0]])
-                if v is None:
-                    return None
-                d[f[0]] = v
+        newlen = {a[0]: na, b[0]: nb}
+
+        def build(tt, node, path):
+            d = {}
+            for f in sc[tt]["fields"]:
+                key = tuple(path + [f[0]])
+                if key in newlen:
+                    it = sc[sc[f[1]]["item"]]["t"]
+                    d[f[0]] = {"l": [M.gen_scalar(rng, it) for _ in range(newlen[key])], "shape": [newlen[key]]}
+                elif sc[f[1]]["k"] == "struct" and any(k2[: len(key)] == key for k2 in newlen):
+                    sub = build(f[1], node.f[f[0]], path + [f[0]])
+                    if sub is None:
+                        return None
+                    d[f[0]] = {"d": sub}
+                else:
+                    v = self._same_shape_value(w, f[1], node.f[f[0]])
+                    if v is None:
+                        return None
+                    d[f[0]] = v
+            return d
+
+        d = build(t, n, [])
+        if d is None:
+            return None
+        if len(a[0]) > 1 or len(b[0]) > 1:
+            self.deep_resplits = getattr(self, "deep_resplits", 0) + 1
         nid = self.new_id()
         ops = []
         if rng.random() < 0.6:
@@ -834,6 +885,24 @@ class HStep(Step):
                 new = node
                 post = lambda: M.assign_into(schema, t, node, vnode)  # noqa: E731
             elif k == "struct":
+                if form == "obj" and op.get("refuse"):
+                    src = self.get_obj(v["obj"])
+                    f0 = schema[t]["fields"][0][0] if schema[t]["fields"] else None
+                    if src.t != t or src is o or raw_holder or getattr(src, "dressed", None) is None or f0 is None or not isinstance(node.f[f0], M.ArrayNode) or len(src.node.f[f0].items) == len(node.f[f0].items):
+                        raise Skip()
+                    if self._part_size(o, path) == self._extent(src):
+                        raise Skip()  # equal total size: byte-copied wholesale, a legitimate assignment
+                    self.res.probe("nested_assignment_that_cannot_be_honoured")
+                    try:
+                        setattr(holder, name, src.dressed)
+                    except Exception as e:
+                        # refused: the part keeps its value, and what the object shows for it keeps being
+                        # the part (checked by the mirror and coherence passes against the unchanged model)
+                        self.outcome = "refused:" + type(e).__name__
+                        return
+                    self.outcome = "accepted"
+                    self.viol("C11", "misuse_accepted", ["h_set_misfit"], f"object {o.k} path {path}: an object whose first array has another length was accepted")
+                    return
                 if form == "obj":
                     src = self.get_obj(v["obj"])
                     if src.t != t or src is o:
